@@ -26,7 +26,10 @@ def tasks(tier):
     for engine, rtc in (("sync", True), ("sync", False), ("async", True)):
         for stored in range(4):  # 0 = nothing stored, 1..3 = a, b, c
             for sv in range(2):  # 0 absent, 1 start_value = 'b'
-                out.append({"engine": engine, "rtc": rtc, "stored": stored, "sv": sv, "prefix": 1 if quick else 2})
+                out.append({"engine": engine, "rtc": rtc, "stored": stored, "sv": sv, "prefix": 1 if quick else 2, "falsy": False})
+        for stored in (0, 2):
+            out.append({"engine": engine, "rtc": rtc, "stored": stored, "sv": 1, "prefix": 1, "falsy": True})
+        out.append({"engine": engine, "rtc": rtc, "nested_ctor": True})
     return out
 
 
@@ -38,21 +41,81 @@ BOUNDS = {
     "quick": "T-chain template with generic enter/exit/... callbacks on machine and a listener (incl. on_enter_a); model holding nothing or any of the 3 states; "
     "start_value absent or 'b'; engines sync rtc, sync non-rtc, async; an initial enter callback may send one nested event {go, hop}; 0..2 extra "
     "activate_initial_state() calls; a history prefix of 0..1 events; re-construction of a second machine over the same model followed by one event on it; "
-    "async: first action after construction is an explicit activation or an event.",
+    "async: first action after construction is an explicit activation or an event; a variant whose states b, c have the falsy values 0 and ''; "
+    "a machine constructed from inside each callback group of another, busy machine.",
     "thorough": "history prefix of 0..2 events.",
 }
 OUTSIDE = "several machines sharing one model concurrently; a never-activated async machine whose model is given a state by someone else before its first event"
-OBLIGATIONS = ["activated-once", "resumed", "reactivation-noop", "reconstructed", "initial-enter-sent-event", "async-explicit-activation", "async-activation-by-first-event", "start-value"]
+OBLIGATIONS = ["nested-construction", "falsy-stored-value", "activated-once", "resumed", "reactivation-noop", "reconstructed", "initial-enter-sent-event", "async-explicit-activation", "async-activation-by-first-event", "start-value"]
 ASSUMPTIONS = [
     "nothing stored = the model attribute is None (the library's documented trigger for activation)",
     "on the async engine construction runs no callback; activation happens at the first loop entry (explicit activation or first event)",
 ]
 
 
-def run(ctx, params):
+def run_nested_ctor(ctx, params):
+    """A second machine is constructed (and, if async, activated) from inside a callback of a machine that is busy."""
     is_async = params["engine"] == "async"
     rtc = params["rtc"]
-    am = chain_am(asyncs_all=is_async, with_listener=True)
+    am = chain_am(asyncs_all=is_async, with_listener=False)
+    made = []
+    with ctx.notracing():
+        box = [None]
+        r = render(am, box, class_name="C11N")
+        script = Script(ctx, am, budget=0)
+        box[0] = script
+    where = ["before_transition", "on_exit_state", "on_transition", "on_enter_state", "after_transition"][ctx.choose(5, "where")]
+
+    def custom(scr, idx, provider, name, info):
+        if name == where and not made and info["event"] == "go":
+            scr.muted = True
+            try:
+                inner = r["cls"](rtc=rtc)
+                if is_async:
+                    made.append(inner)  # activated below, outside the running loop
+                else:
+                    made.append(inner)
+            finally:
+                scr.muted = False
+        return None
+
+    with ctx.notracing():
+        script.muted = True
+        sm = r["cls"](rtc=rtc)
+        if is_async:
+            sm.activate_initial_state()
+        script.muted = False
+        script.sm = sm
+    script.custom = custom
+    sm.send("go")
+    tag = f"nested-ctor:{params['engine']}:rtc={rtc}"
+    if not made:
+        raise Mismatch(f"harness:{tag}", "hook did not run")
+    inner = made[0]
+    script.muted = True
+    if is_async:
+        inner.activate_initial_state()
+    try:
+        st = inner.current_state.id
+    except Exception as e:
+        if type(e).__name__ == "NotDeterministic":
+            raise
+        raise Mismatch(f"machine-built-inside-a-callback-not-activated:{tag}", f"constructed during {where} of another machine's event: {type(e).__name__}: {e}")
+    if st != "a" or sm.current_state.id != "b":
+        raise Mismatch(f"machine-built-inside-a-callback-wrong-state:{tag}", f"inner in {st}, outer in {sm.current_state.id}")
+    inner.send("go")
+    if inner.current_state.id != "b" or sm.current_state.id != "b":
+        raise Mismatch(f"machine-built-inside-a-callback-wrong-state:{tag}", "after an event on the inner machine")
+    ctx.cover("nested-construction")
+
+
+def run(ctx, params):
+    if params.get("nested_ctor"):
+        return run_nested_ctor(ctx, params)
+    is_async = params["engine"] == "async"
+    rtc = params["rtc"]
+    vals = {"a": "a", "b": 0, "c": ""} if params["falsy"] else {"a": "a", "b": "b", "c": "c"}
+    am = chain_am(asyncs_all=is_async, with_listener=True, values=vals if params["falsy"] else None)
     start_id = "b" if params["sv"] else "a"
     stored = params["stored"]
     with ctx.notracing():
@@ -66,12 +129,12 @@ def run(ctx, params):
             pass
 
         model = Model()
-        model.state = STATES[stored - 1] if stored else None
+        model.state = vals[STATES[stored - 1]] if stored else None
         token = model.state
         listeners = [c() for c in r["listener_classes"]]
     kw = {"rtc": rtc, "listeners": listeners}
     if params["sv"]:
-        kw["start_value"] = "b"
+        kw["start_value"] = vals["b"]
     tag = f"{params['engine']}:rtc={rtc}"
     cur = STATES[stored - 1] if stored else None
 
@@ -94,6 +157,8 @@ def run(ctx, params):
     if stored:
         expect_silence("construction-over-stored-state", sm)
         ctx.cover("resumed")
+        if not model.state:
+            ctx.cover("falsy-stored-value")
     elif is_async:
         expect_silence("async-construction", sm)
         pending_initial = True
